@@ -102,6 +102,34 @@ fn main() {
         props::leg(&prop, lseed, n, &args[5..]);
         std::process::exit(0);
     }
+    if args[2] == "--coverage" {
+        // which registered instructions does the reference model value-check, and who owns them?
+        let mut r = engine::det_runner(1);
+        for name in exec::registry_names() {
+            let fp = footprint::get(&name);
+            let owner = fp.as_ref().map(|f| f.owner.clone()).unwrap_or_else(|| "-".into());
+            let (mut modelled, mut unspecified, mut compared) = (0, 0, 0);
+            let params = gen::StateParams::full(vec!["NOOP".into()]);
+            let strat = single::state_for_any(vec![name.clone()], &params);
+            for _ in 0..60 {
+                let (_, mut s) = engine::draw(&strat, &mut r);
+                envelope::clamp_sizes_spec(&mut s, &name);
+                match refmodel::ref_instr(&s.canonical(), &name) {
+                    refmodel::Expect::NotModelled => {}
+                    refmodel::Expect::Unspecified(_) => {
+                        modelled += 1;
+                        unspecified += 1;
+                    }
+                    _ => {
+                        modelled += 1;
+                        compared += 1;
+                    }
+                }
+            }
+            exec::say(&format!("{}\towner={}\tmodelled={}\tcompared={}\tunspecified={}", name, owner, modelled, compared, unspecified));
+        }
+        std::process::exit(0);
+    }
     if args[2] == "--digest" {
         props::c04::digest_file(args.get(3).map(|s| s.as_str()).unwrap_or(""));
         std::process::exit(0);
